@@ -2,7 +2,11 @@ use std::fs::{File, OpenOptions};
 use std::io::{self, BufWriter, Read, Seek, SeekFrom, Write};
 use std::path::{Path, PathBuf};
 
+#[cfg(not(quickwit_oss_mrecordlog_verif))]
 use tracing::info;
+
+#[cfg(quickwit_oss_mrecordlog_verif)]
+use crate::verif_noop::info;
 
 use super::{FileNumber, FileTracker};
 use crate::rolling::{FILE_NUM_BYTES, FRAME_NUM_BYTES};
@@ -217,6 +221,41 @@ pub struct RollingWriter {
     offset: usize,
     file_number: FileNumber,
     pub(crate) directory: Directory,
+}
+
+#[cfg(quickwit_oss_mrecordlog_verif)]
+#[allow(dead_code)]
+impl Directory {
+    /// Verification hook: a directory handle over an already built tracker (no scan).
+    pub(crate) fn verif_new(files: FileTracker) -> Directory {
+        Directory {
+            dir: PathBuf::new(),
+            files,
+        }
+    }
+}
+
+#[cfg(quickwit_oss_mrecordlog_verif)]
+#[allow(dead_code)]
+impl RollingWriter {
+    /// Verification hook: a writer positioned at `offset` of `file_number` over the given (never
+    /// used) file handle.
+    pub(crate) fn verif_new(file: File, directory: Directory, file_number: FileNumber, offset: usize) -> RollingWriter {
+        RollingWriter {
+            file: BufWriter::with_capacity(FRAME_NUM_BYTES, file),
+            offset,
+            file_number,
+            directory,
+        }
+    }
+
+    pub(crate) fn verif_offset(&self) -> usize {
+        self.offset
+    }
+
+    pub(crate) fn verif_directory(&self) -> &Directory {
+        &self.directory
+    }
 }
 
 impl RollingWriter {
